@@ -472,6 +472,10 @@ func Families(tier string, seed int64) []*spec.Program {
 			{"Solo", F("BadOnly", "timestamp", stdtime()), true, false, []string{"Alpha"}},
 			// time.Duration stays a duration when a custom duration type is configured as well
 			{"Mid", F("BadStdCast", "int64", cast("time.Duration")), false, true, []string{"Alpha", "Beta"}},
+			// the unmappable field is a BRANCH of the selected type's oneof
+			{"Alpha", F("BadPick", "int64", cast("time.Duration"), oneof(0)), false, true, []string{"Alpha"}},
+			// ... or sits in a message that is reached through a oneof branch only
+			{"PickOnly", F("BadDeep", "int64", cast("time.Duration")), false, true, []string{"Alpha"}},
 		}
 		if thorough {
 			injs = append(injs, inj{"Leaf", F("BadKey", "map:bool,msg:Leaf"), false, false, []string{"Alpha", "Beta"}},
@@ -494,6 +498,13 @@ func Families(tier string, seed int64) []*spec.Program {
 				ref.Spec.Messages = append(ref.Spec.Messages, M("Solo", nil))
 				if a := ref.Spec.MsgByName("Alpha"); a != nil {
 					a.Fields = append(a.Fields, spec.Field{Name: "Solo", Type: "msg:Solo", Num: 70}, spec.Field{Name: "Solos", Type: "map:msg:Solo", Num: 71})
+				}
+			}
+			if in.msg == "PickOnly" {
+				ref.Spec.Messages = append(ref.Spec.Messages, M("PickOnly", nil, F("Note", "string")))
+				if a := ref.Spec.MsgByName("Alpha"); a != nil {
+					zero := int32(0)
+					a.Fields = append(a.Fields, spec.Field{Name: "PickOnly", Type: "msg:PickOnly", Num: 72, Oneof: &zero})
 				}
 			}
 			if in.msg == "Gamma" {
